@@ -229,6 +229,25 @@ def calcPenalty (vlaExtra ndim : Nat) (nspl : List Nat) (dim nk order porder : N
         rd .divd (porder + 1) k]],
     forN ndim fun i => rd .nsplines nspl.length i]       -- kronecker products
 
+/-- `Π l` as the C loops accumulate it -/
+def prodL (l : List Nat) : Nat := l.foldl (· * ·) 1
+
+/-- The tail of `glamfit_complex` for a monotone dimension `m`: cumulative sums of the coefficients along `m`,
+```
+for (i < stride1) for (j = 1; j < naxes[m]; j++) for (k < stride2)
+  out[i*stride2*naxes[m] + j*stride2 + k] += out[i*stride2*naxes[m] + (j-1)*stride2 + k];
+```
+`stride1 = Π_{i<m} naxes[i]`, `stride2 = Π_{i>m} naxes[i]`; `out` has `Π naxes` cells (`coefficients` in `fit`). -/
+def monoTail (naxes : List Nat) (m : Nat) : Out :=
+  let s1 := prodL (naxes.take m)
+  let s2 := prodL (naxes.drop (m+1))
+  let nm := naxes.getD m 0
+  let nc := prodL naxes
+  seqAll [
+    rd .naxes naxes.length m,
+    forN s1 fun i => forN (nm - 1) fun j' => forN s2 fun k => seqAll [     -- j = j'+1
+      rd .coef nc (i*s2*nm + (j'+1)*s2 + k), rd .coef nc (i*s2*nm + j'*s2 + k)]]
+
 /-- `wsub` in `uint32_t` -/
 def wsub32 (a b : Nat) : Nat := wsubM U32 a b
 
@@ -254,7 +273,8 @@ def fitBody (c : Cfg) (a : Args) : Out :=
       Out.when (a.smoothAt i) (calcPenalty c.vlaExtra nd nspl i (a.nkAt i) (a.ordAt i) (a.penAt i))],
     forN nd fun i => seqAll [                            -- glamfit_complex: bases[i] = bsplinebasis(...)
       rd .ranges a.data.ranges.length i,
-      bsplineBasis (a.nkAt i) (a.rangeOf i) (a.coordLen i) (a.ordAt i)]]
+      bsplineBasis (a.nkAt i) (a.rangeOf i) (a.coordLen i) (a.ordAt i)],
+    Out.when (a.monodim != noMonodim) (monoTail nspl a.monodim)]   -- t-spline → b-spline coefficients
 
 /-! ## The table and the two entry points -/
 
